@@ -34,6 +34,16 @@ type c12TW struct {
 
 func c12GenTW(t *rapid.T) c12TW {
 	sc := c12TW{Explore: 2}
+	if rapid.IntRange(0, 2).Draw(t, "burst") == 0 {
+		// a burst of concurrent enqueues while the wheel already waits for a later entry
+		sc.Producers = append(sc.Producers, []c12Add{{ID: 0, OffsetSec: rapid.SampledFrom([]int{300, 300, 3000}).Draw(t, "head"), AfterSec: 0}})
+		at := rapid.SampledFrom([]int{1, 1, 30}).Draw(t, "burst_at")
+		for p, n := 0, rapid.IntRange(2, 4).Draw(t, "burst_size"); p < n; p++ {
+			sc.Producers = append(sc.Producers, []c12Add{{ID: p + 1, OffsetSec: rapid.SampledFrom([]int{-5, 2, 31, 60, 300, 600, 3000}).Draw(t, "offset"), AfterSec: at}})
+		}
+		sc.CloseAfterSec = rapid.SampledFrom([]int{-1, -1, 30, 301}).Draw(t, "close_after")
+		return sc
+	}
 	np := rapid.IntRange(1, 4).Draw(t, "producers")
 	id := 0
 	for p := 0; p < np; p++ {
@@ -86,7 +96,7 @@ func c12RunTWOnce(sc c12TW, schedule []vsched.Deviation) (res vsched.Result, obs
 			s.Go("closer", func() {
 				d := time.Duration(sc.CloseAfterSec) * time.Second
 				if sc.CloseAfterSec < 0 {
-					d = time.Hour
+					d = 2 * time.Hour
 				}
 				if d > 0 {
 					time.Sleep(d)
@@ -153,6 +163,28 @@ func c12CheckTW(sc c12TW, res vsched.Result, obs *c12Obs) (vs []ev.V) {
 		for id := range sched {
 			if _, added := obs.addDone[id]; added && len(obs.dispatched[id]) != 1 {
 				vs = append(vs, ev.Vf("timewheel:not-dispatched", "entry %d (scheduled +%v, Add returned at +%v) was dispatched %d times although Close came at +%v", id, sched[id], obs.addDone[id], len(obs.dispatched[id]), obs.closeStart))
+			}
+		}
+	}
+	// "is dispatched" in a finite run: with a dispatch function that returns at once, an entry that is due is
+	// handed out when it becomes due (or when its Add returns, if later) - a minute of slack for coarser wheels -
+	// unless Close had begun by then. (A wake-up that is lost leaves the entry waiting behind a later one.)
+	if len(res.Panics) == 0 {
+		for id, at := range sched {
+			done, added := obs.addDone[id]
+			if !added {
+				continue
+			}
+			due := at
+			if done > due {
+				due = done
+			}
+			limit := due + time.Minute
+			if obs.closeStart >= 0 && obs.closeStart <= limit {
+				continue
+			}
+			if ts := obs.dispatched[id]; len(ts) == 0 || ts[0] > limit {
+				vs = append(vs, ev.Vf("timewheel:dispatched-late", "entry %d was due at +%v (scheduled +%v, Add returned at +%v) and was not dispatched by +%v: dispatched %v, Close began at +%v\ntrace: %s", id, due, at, done, limit, ts, obs.closeStart, c12Trace(res)))
 			}
 		}
 	}
